@@ -4056,6 +4056,14 @@ def _walk_working_dir_paths(
             if dirpath != basepath:
                 continue
 
+        # A symlink is a leaf (it is tracked as a blob holding its target),
+        # also when it points at a directory; os.walk lists those as
+        # directories without descending into them.
+        for dirname in list(dirnames):
+            if os.path.islink(os.path.join(dirpath, dirname)):  # type: ignore[call-overload]
+                dirnames.remove(dirname)
+                filenames.append(dirname)
+
         if precompose_unicode and isinstance(dirpath, str):
             dirpath = _precompose_unicode_path(dirpath)
             dirnames[:] = [
